@@ -40,6 +40,7 @@ theorem finalRanges_complete (r : List Bool) (cap0 : Nat) (h : 21 * (r.length + 
     have s1 := rangeCountIncr_le (foldRanges 1 0 false cap0 [] r).ranges.length
     have s2 := (varintSize_le ((foldRanges 1 0 false cap0 [] r).gap - 1)).2
     have s3 := (varintSize_le ((foldRanges 1 0 false cap0 [] r).ack - 1)).2
+    have s4 : GmQuic.Gen.ackLastSpare ≤ 1 := by decide
     rw [if_pos (by omega), h1, coverRanges_append]
     have e2 : ∀ n, 1 ≤ n → n - 1 + 1 = n := by omega
     simp only [coverRanges, e2 _ hg, e2 _ ha, List.append_nil]
